@@ -1,5 +1,5 @@
 """C05 — Every reported position points at the text it is about (DESIGN.md §3 C05): structural necessary conditions."""
-import re
+import re, json
 from vlib.mir import norm, loc_str, op_place, loc_macro, rvalue_operands
 from vlib.traversal import Traversal, snake
 
@@ -453,6 +453,86 @@ def rule_end(ctx, rep):
             r.finding(inst + "|reads only " + ",".join(sorted(read)), where, "label.location.%s is never read: every converted range is empty / ends where it starts" % ",".join(sorted({"start", "end"} - read)))
 
 
+def _label_reads(b):
+    """{root local of a Label place: set of Label-relative fields read ('file_id', 'start', 'end')}"""
+    out = {}
+    for _, k, p in b.place_uses():
+        if k == "write":
+            continue
+        rt = b.root(p)
+        pj = rt[1]
+        for i, x in enumerate(pj):
+            if isinstance(x, list) and x[0] == "f" and x[3] == "ironplc_dsl::diagnostic::Label":
+                key = (rt[0], json.dumps(pj[:i]))
+                if x[2] == "file_id":
+                    out.setdefault(key, set()).add("file_id")
+                elif x[2] == "location":
+                    for y in pj[i + 1:]:
+                        if isinstance(y, list) and y[0] == "f" and y[2] in ("start", "end"):
+                            out.setdefault(key, set()).add(y[2])
+                    if len(pj) == i + 1:
+                        out.setdefault(key, set()).update(("start", "end"))     # the whole location is handed on
+    return out
+
+
+def rule_pair(ctx, rep):
+    """Byte offsets mean nothing without the file they index.  Wherever the front ends (cli.rs, lsp_project.rs) consume a Label's
+    offsets, the same function also consumes that label's file_id - or, when the label is a parameter, every caller reads the
+    file_id of the very label it passes.  Pairing a label's offsets with some other label's file puts the underline into the wrong
+    file (or panics when slicing the wrong text)."""
+    r = rep.rule("R-C05-pair", "a label's byte offsets are only ever combined with that label's own file: every front-end function reading "
+                               "Label.location also reads the same label's file_id (itself, or each caller for the label it passes)", floor=2,
+                 floor_what="front-end functions reading Label.location")
+    n = 0
+    for b in sorted(ctx.prog.bodies.values(), key=lambda x: x.id):
+        if b.f["crate"] != "ironplcc" or "::test" in norm(b.id):
+            continue
+        reads = _label_reads(b)
+        for (root, pj), fs in sorted(reads.items()):
+            if not (fs & {"start", "end"}):
+                continue
+            n += 1
+            inst = "%s|label _%d%s" % (norm(b.id).replace("ironplcc::", ""), root, "" if pj in ("[]", '["*"]') else " " + pj[:40])
+            where = "%s:%d" % (b.f["file"], b.f["line"])
+            if "file_id" in fs:
+                r.ok(inst, where, "offsets and file_id of the same label are read here")
+                continue
+            is_param = 1 <= root <= b.f["argc"] and b.f["dk"] != "Closure"
+            if not is_param:
+                r.finding(inst + "|file-not-from-label", where, "the label's offsets are used but its file_id is never read here")
+                continue
+            # callers
+            bad, good = [], 0
+            for cb in ctx.prog.bodies.values():
+                for c in cb.calls():
+                    if c.callee != norm(b.id) or len(c.args) < root:
+                        continue
+                    ap = op_place(c.args[root - 1])
+                    if ap is None:
+                        bad.append((cb, c))
+                        continue
+                    art = cb.root(ap)
+                    # the caller must read .file_id below the same place (modulo the reference taken for the call)
+                    base = [x for x in art[1] if x != "*"]
+                    ok = False
+                    for (rl, rpj), rfs in _label_reads(cb).items():
+                        if rl == art[0] and [x for x in json.loads(rpj) if x != "*"] == base and "file_id" in rfs:
+                            ok = True
+                    if ok:
+                        good += 1
+                    else:
+                        bad.append((cb, c))
+            if bad or not good:
+                for cb, c in bad[:3]:
+                    r.finding(inst + "|caller %s passes a label whose file_id nobody reads" % norm(cb.id).replace("ironplcc::", ""), loc_str(cb.f, c.loc),
+                              "the offsets of this label are combined with a file that was not looked up from this label's file_id")
+                if not bad:
+                    r.finding(inst + "|no-caller", where, "no caller found that reads the label's file_id")
+            else:
+                r.ok(inst, where, "every caller (%d) reads the file_id of the label it passes" % good)
+    r.note("%d (function, label) pairs reading Label.location in the front ends" % n)
+
+
 def rule_noop(ctx, rep):
     r = rep.rule("R-C05-noop", "no position counter of the lexer is advanced by the literal 0 on a path that consumed input", floor=5, floor_what="counter updates in lexer::tokenize")
     lb = ctx.prog.get("ironplc_parser::lexer::tokenize")
@@ -534,3 +614,4 @@ def run(ctx, rep):
     rule_end(ctx, rep)
     rule_noop(ctx, rep)
     rule_units(ctx, rep)
+    rule_pair(ctx, rep)
